@@ -888,6 +888,8 @@ class Executor(object):
                 return b.term == dsl.NONE
             if isinstance(b, (Num, bool, int, float, str, HistV, DictV, ListV, FnV, StrV)) or is_z3(b):
                 return False
+            if type(b).__name__ in ("DictObjV", "RowV", "ListLV", "IndexLV", "MaskV", "UniverseV", "WindowV", "AuxFrameV", "TupleV", "TempV", "PyListV"):
+                return False        # model values that stand for an existing container / frame object
             self._undecided("is None on %r" % (b,))
         if isinstance(a, RefV) and isinstance(b, RefV):
             return a.term == b.term
